@@ -1,29 +1,36 @@
-"""C15 helper: mod/effect summaries over the MIR facts and the order-(in)sensitivity analysis of the code that
-consumes a hash-ordered iterator.
+"""C15 helper: mod/effect summaries over the MIR facts, used to decide whether the code consuming a hash-ordered
+iterator can make anything that outlives one iteration depend on the iteration order.
 
-Two flow-insensitive points-to computations share one transfer function:
-  * parameter domain  (roots = (param index, closure capture index|None)) → interprocedural summary
-        W[f]  = {((param, capture), kind)}   memory reachable from that parameter may be written by f
-                 kind 'h' = only through keyed hash/btree container operations, 'o' = anything else
-        IO[f] = {'stdio', 'fs', 'process', ...}   D[f] = may report a frontend diagnostic
-  * local domain (roots = MIR locals) → effects of a *region* (a loop body or a whole closure body) on state that
-    outlives one iteration.
-Everything is an over-approximation of "may write": a region without effects really has none.
+Abstract locations (flow-insensitive, per body):
+    ('L', x)            the storage of MIR local x
+    ('P', (i, k), lvl)  memory reachable from parameter i (k = closure capture index or None);
+                        lvl 1 = what the parameter points to directly, lvl 2 = anything reached through further
+                        pointers; for a closure capture lvl 0 = the capture slot inside the closure object itself
+    ('E',)              an element handed out by the hash iterator under analysis (region analysis only)
+PT[x] = locations the *value* of local x may point to (or be derived from).
+
+Interprocedural summary (least fixpoint over the call graph):
+    W[f]  = {((i, k), lvl, kind)}   f may write that region of its parameter; kind 'h' = only through keyed
+                                    (hash/btree) container operations on it, 'o' = anything else
+    IO[f] = {'stdio', 'fs', 'process', ...};  D[f] in (None, 'warn', 'err') = may report a frontend diagnostic
+Everything over-approximates "may write", so a region reported without effects really has none (modulo `unsafe`
+pointer arithmetic and Drop impls, which are not modelled).
 """
 import re
 
 import cfg
 
-MUT_RE = re.compile(r"&mut |Mut\b|MutexGuard|WriteGuard|Entry<|Drain<")
+MUT_RE = re.compile(r"&mut |\*mut |Mut\b|MutexGuard|WriteGuard|Entry<|Drain<")
+DEEP_RE = re.compile(r"/#\d|\bdyn\b")          # opaque generic parameter / trait object: may forward to a pointer
 # extern functions that take a mutable handle but only hand out a pointer derived from it (the write, if any, happens
 # through the returned pointer, whose provenance is tracked)
 PROJECTION = {"deref_mut", "deref", "as_mut", "as_mut_slice", "as_mut_ptr", "borrow_mut", "borrow", "get_mut",
               "index_mut", "index", "iter_mut", "values_mut", "last_mut", "first_mut", "unwrap", "expect",
-              "as_deref_mut", "lock", "write", "read", "get", "as_ref", "into_mut", "get_mut_or_init",
-              "unwrap_or_else", "ok_or", "into_iter", "iter", "len", "is_empty", "contains", "contains_key",
-              "is_some", "is_none", "by_ref", "split_at_mut", "chunks_mut", "get_unchecked_mut", "as_slice"}
+              "as_deref_mut", "lock", "write", "read", "get", "as_ref", "into_mut", "unwrap_or_else", "ok_or",
+              "into_iter", "iter", "len", "is_empty", "contains", "contains_key", "is_some", "is_none", "by_ref",
+              "split_at_mut", "chunks_mut", "get_unchecked_mut", "as_slice", "unwrap_unchecked", "as_ptr"}
 HASH_WRITE = {"insert", "remove", "entry", "or_insert", "or_insert_with", "or_insert_with_key", "or_default",
-              "remove_entry", "take", "replace", "clear", "retain", "extend", "and_modify", "insert_entry"}
+              "remove_entry", "take", "replace", "clear", "retain", "extend", "insert_entry"}
 KEYED = ("std::collections::hash::", "alloc::collections::btree::")
 INTERIOR = [
     (re.compile(r"^core::cell::Cell::<.*>::(set|replace|take|swap|update)$"), "Cell"),
@@ -45,15 +52,22 @@ def last(p):
     return p.rsplit("::", 1)[-1] if p else ""
 
 
+def dmax(a, b):
+    """may-report lattice None < 'warn' < 'err'"""
+    if a == "err" or b == "err":
+        return "err"
+    return a or b
+
+
 def short(p):
     """stable, readable callee label: last two path segments without generic arguments"""
     if not p:
         return "?"
-    q = re.sub(r"::<[^:]*?>(?=::|$)", "", p)
-    q = re.sub(r"<[^<>]*>", "", q)
-    q = re.sub(r"<[^<>]*>", "", q)
-    parts = [x for x in q.split("::") if x]
-    return "::".join(parts[-2:])
+    q = p
+    for _ in range(4):
+        q = re.sub(r"<[^<>]*>", "", q)
+    parts = [x for x in q.replace("::::", "::").split("::") if x and x not in (" as ",)]
+    return "::".join(parts[-2:]).strip()
 
 
 def is_keyed_container_fn(name):
@@ -70,42 +84,8 @@ def interior_write(name):
 def io_kind(name):
     for pre, kind in IO_PREFIX:
         if name.startswith(pre):
-            # reading from a Read impl etc. is not modelled separately; stdio/fs/process are what matters here
             return kind
     return None
-
-
-def rvalue_places(rv):
-    """places read by an rvalue"""
-    k = rv[0]
-    out = []
-
-    def op(o):
-        if o[0] in ("c", "m"):
-            out.append(o[1])
-    if k in ("use", "repeat"):
-        op(rv[1])
-    elif k == "ref":
-        out.append(rv[2])
-    elif k in ("rawptr", "discr", "len"):
-        if isinstance(rv[1], list) and len(rv[1]) == 2 and isinstance(rv[1][0], int):
-            out.append(rv[1])
-    elif k == "cast":
-        op(rv[2])
-    elif k == "bin":
-        op(rv[2])
-        op(rv[3])
-    elif k == "un":
-        op(rv[2])
-    elif k == "agg":
-        for o in rv[2]:
-            op(o)
-    else:
-        # unknown rvalue kinds: scan for operand-shaped children
-        for x in rv[1:]:
-            if isinstance(x, list) and len(x) == 2 and x[0] in ("c", "m") and isinstance(x[1], list):
-                out.append(x[1])
-    return out
 
 
 def is_const_rvalue(rv):
@@ -127,12 +107,76 @@ def fn_consts(x, out):
             fn_consts(c, out)
 
 
-class BodyInfo:
-    """per-body, domain independent: the list of events of the non-cleanup reachable blocks"""
+def nderef(proj):
+    return sum(1 for p in proj if p == "*")
 
-    def __init__(self, B):
+
+PRIMS = {"usize", "isize", "u8", "u16", "u32", "u64", "u128", "i8", "i16", "i32", "i64", "i128", "bool", "char", "f32",
+         "f64", "str"}
+OWNED_STD = {"alloc::string::String", "alloc::vec::Vec", "core::option::Option", "core::result::Result",
+             "alloc::boxed::Box", "std::path::PathBuf", "std::collections::hash::map::HashMap",
+             "std::collections::hash::set::HashSet", "core::ops::range::Range", "core::ops::range::RangeInclusive",
+             "alloc::alloc::Global", "std::hash::random::RandomState", "core::cmp::Ordering",
+             "alloc::collections::btree::map::BTreeMap", "alloc::collections::btree::set::BTreeSet",
+             "alloc::collections::vec_deque::VecDeque", "std::ffi::os_str::OsString", "core::time::Duration"}
+PHANTOM_RE = re.compile(r"(id_arena::Id|core::marker::PhantomData)<[^<>]*(<[^<>]*(<[^<>]*>[^<>]*)*>[^<>]*)*>")
+PATH_RE = re.compile(r"[A-Za-z_][A-Za-z0-9_]*(?:::[A-Za-z_][A-Za-z0-9_]*)*")
+
+
+class Inert:
+    """types whose values cannot hold a pointer into foreign memory (owned data only): storing into a local of such
+    a type cannot create an alias of parameter memory"""
+
+    def __init__(self, crates):
+        self.adts = {}
+        for c in crates:
+            for a in c.items["adts"]:
+                self.adts.setdefault(a["path"], a)
+        self.memo = {}
+
+    def inert(self, ty, depth=0):
+        r = self.memo.get(ty)
+        if r is not None:
+            return r
+        if depth > 12:
+            return False
+        self.memo[ty] = True            # optimistic for recursive ADTs (Box<Self>)
+        r = self._inert(ty, depth)
+        self.memo[ty] = r
+        return r
+
+    def _inert(self, ty, depth):
+        if any(x in ty for x in ("&", "*", "'", "dyn ", "/#", "{closure", "fn(", "impl ", "Rc<", "Arc<", "{coroutine")):
+            return False
+        t = PHANTOM_RE.sub("usize", ty)
+        for tok in PATH_RE.findall(t):
+            if "::" not in tok:
+                if tok in PRIMS:
+                    continue
+                return False
+            if tok in OWNED_STD:
+                continue
+            a = self.adts.get(tok)
+            if a is None:
+                return False
+            for v in a["variants"]:
+                for f in v["fields"]:
+                    if not self.inert(f["ty"], depth + 1):
+                        return False
+        return True
+
+
+class BodyInfo:
+    """per body: event list of the non-cleanup reachable blocks and the points-to solution"""
+
+    def __init__(self, B, cuts=None, elem_params=(), inert=None):
+        """cuts: call blocks whose result is an element source (tag 'E'); elem_params: parameters of a closure body
+        that receive elements"""
         self.B = B
-        self.is_closure = "{closure" in B.path.rsplit("::", 1)[-1]
+        self.no_ptr = [bool(inert and inert.inert(ty)) for (ty, _n) in B.locals]
+        self.is_closure = "{closure" in last(B.path)
+        self.cuts = set(cuts or ())
+        self.elem_params = set(elem_params)
         self.events = []     # (kind, block, payload)
         reach = B.reachable(0)
         for bi, blk in enumerate(B.blocks):
@@ -149,12 +193,11 @@ class BodyInfo:
                     fn_consts(rv, fns)
                     for fn in fns:
                         self.events.append(("fref", bi, fn))
-                elif s[0] in ("setdiscr", "copy_nonoverlapping"):
-                    pl = s[1] if s[0] == "setdiscr" else None
-                    if pl is not None and "*" in pl[1]:
-                        self.events.append(("w", bi, (pl, ["use", ["m", pl]])))
-                    elif s[0] == "copy_nonoverlapping":
-                        self.events.append(("asm", bi, "copy_nonoverlapping"))
+                elif s[0] == "setdiscr":
+                    if "*" in s[1][1]:
+                        self.events.append(("w", bi, (s[1], ["use", ["k", {}]])))
+                elif s[0] == "copy_nonoverlapping":
+                    self.events.append(("asm", bi, "copy_nonoverlapping"))
             t = blk["t"]
             if t[0] == "call":
                 self.events.append(("call", bi, cfg.Call(B, bi, t[1])))
@@ -164,65 +207,153 @@ class BodyInfo:
                     self.events.append(("fref", bi, fn))
             elif t[0] == "asm":
                 self.events.append(("asm", bi, "asm"))
+        self._solve()
 
-    def points_to(self, domain):
-        """flow-insensitive may-point-to / derived-from sets.  domain 'param': roots (i, capture|None) seeded at
-        the parameters; domain 'local': every local is its own root."""
+    # ---- location algebra ---------------------------------------------------------
+    def deref(self, tags):
+        out = set()
+        for t in tags:
+            if t[0] == "P":
+                out.add(("P", t[1], 2 if t[2] >= 1 else 1))
+            elif t[0] == "L":
+                out |= self.PT[t[1]]
+            else:
+                out.add(t)
+        return out
+
+    def closure_of(self, tags):
+        out = set(tags)
+        frontier = set(tags)
+        for _ in range(64):
+            nxt = self.deref(frontier) - out
+            if not nxt:
+                break
+            out |= nxt
+            frontier = nxt
+        return out
+
+    def locations(self, place):
+        """abstract locations denoted by a place"""
+        b, proj = place
+        if self.is_closure and b == 1:
+            # closure environment: split per capture
+            k = None
+            rest = None
+            for i, p in enumerate(proj):
+                if p == "*":
+                    continue
+                if p.startswith(".") and p[1:].isdigit():
+                    k = int(p[1:])
+                    rest = proj[i + 1:]
+                break
+            if k is not None:
+                cur = {("P", (1, k), 0)}
+                for _ in range(nderef(rest)):
+                    cur = self.deref(cur)
+                return cur
+        cur = {("L", b)}
+        for _ in range(nderef(proj)):
+            cur = self.deref(cur)
+        return cur
+
+    def value(self, op_or_place, is_place=False):
+        """tags of the value stored in a place / carried by an operand"""
+        if not is_place:
+            if op_or_place[0] not in ("c", "m"):
+                return set()
+            place = op_or_place[1]
+        else:
+            place = op_or_place
+        return self.deref(self.locations(place))
+
+    def rvalue_tags(self, rv):
+        k = rv[0]
+        out = set()
+        if k in ("use", "repeat"):
+            out |= self.value(rv[1])
+        elif k == "ref":
+            out |= self.locations(rv[2])
+        elif k == "rawptr":
+            pl = rv[1] if (isinstance(rv[1], list) and len(rv[1]) == 2 and isinstance(rv[1][0], int)) else rv[2]
+            out |= self.locations(pl)
+        elif k == "cast":
+            out |= self.value(rv[2])
+        elif k == "bin":
+            out |= self.value(rv[2]) | self.value(rv[3])
+        elif k == "un":
+            out |= self.value(rv[2])
+        elif k == "agg":
+            for o in rv[2]:
+                out |= self.value(o)
+        elif k in ("discr", "len"):
+            pass
+        else:
+            for x in rv[1:]:
+                if isinstance(x, list) and len(x) == 2 and x[0] in ("c", "m") and isinstance(x[1], list):
+                    out |= self.value(x)
+        return out
+
+    def _solve(self):
         B = self.B
         n = len(B.locals)
-        if domain == "param":
-            PT = [set() for _ in range(n)]
-            for i in range(1, B.argc + 1):
-                PT[i].add((i, None))
-        else:
-            PT = [{i} for i in range(n)]
-        clos = self.is_closure and domain == "param"
-
-        def roots(place):
-            b, proj = place
-            if clos and b == 1:
-                for p in proj:
-                    if p.startswith(".") and p[1:].isdigit():
-                        return {(1, int(p[1:]))}
-                    if p != "*":
-                        break
-            return PT[b]
+        self.PT = [set() for _ in range(n)]
+        for i in range(1, B.argc + 1):
+            if i in self.elem_params:
+                self.PT[i].add(("E",))
+            else:
+                self.PT[i].add(("P", (i, None), 1))
         changed = True
         rounds = 0
-        while changed and rounds < 50:
+        while changed and rounds < 60:
             changed = False
             rounds += 1
-            for blk in B.blocks:
+            for bi, blk in enumerate(B.blocks):
                 if blk["c"]:
                     continue
                 for s in blk["s"]:
                     if s[0] != "a":
                         continue
-                    x = s[1][0]
-                    tgt = PT[x]
-                    before = len(tgt)
-                    for pl in rvalue_places(s[2]):
-                        tgt |= roots(pl)
-                        for p in pl[1]:
-                            if p.startswith("[_"):
-                                pass
-                    if len(tgt) != before:
+                    v = self.rvalue_tags(s[2])
+                    if not v:
+                        continue
+                    if self._store(s[1], v):
                         changed = True
                 t = blk["t"]
                 if t[0] == "call":
-                    x = t[1]["d"][0]
-                    tgt = PT[x]
-                    before = len(tgt)
-                    for a in t[1]["a"]:
-                        if a[0] in ("c", "m"):
-                            tgt |= roots(a[1])
-                    f = t[1]["f"]
-                    if f[0] in ("c", "m"):
-                        tgt |= roots(f[1])
-                    if len(tgt) != before:
+                    c = t[1]
+                    if bi in self.cuts:
+                        v = {("E",)}
+                    else:
+                        v = set()
+                        for a in c["a"]:
+                            v |= self.value(a)
+                        if c["f"][0] in ("c", "m"):
+                            v |= self.value(c["f"])
+                        fn = cfg.callee_of(c["f"])
+                        nm = cfg.callee_name(fn) or ""
+                        if not (nm and not nm.lstrip("<&'a mut").startswith("dora") and last(nm) in PROJECTION):
+                            # anything but a std projection may return a pointer loaded from deeper inside its arguments
+                            v = self.closure_of(v)
+                    if v and self._store(c["d"], v):
                         changed = True
-        self._roots = roots
-        return PT, roots
+
+    def _store(self, place, v):
+        ch = False
+        if nderef(place[1]) == 0:
+            tgt = self.PT[place[0]]
+            if self.no_ptr[place[0]]:
+                return False
+            if not v <= tgt:
+                tgt |= v
+                ch = True
+        else:
+            for loc in self.locations(place):
+                if loc[0] == "L" and not self.no_ptr[loc[1]]:
+                    tgt = self.PT[loc[1]]
+                    if not v <= tgt:
+                        tgt |= v
+                        ch = True
+        return ch
 
 
 class Effects:
@@ -230,96 +361,80 @@ class Effects:
         self.cg = cg
         self.diag_base = diag_base          # {path: 'err'|'warn'}
         self.info = {}
-        self.pt = {}
         self.W = {}
         self.IO = {}
         self.D = {}
         self._must_err = {}
+        self.why = {}                       # (fn, region) -> label of the first write found (messages only)
+        self.inert = Inert(cg.crates)
         self._solve()
 
-    # ---- per body ---------------------------------------------------------------
     def body_info(self, p):
         bi = self.info.get(p)
         if bi is None:
             B = self.cg.body(p)
             if B is None:
                 return None
-            bi = BodyInfo(B)
+            bi = BodyInfo(B, inert=self.inert)
             self.info[p] = bi
         return bi
 
-    def param_pt(self, p):
-        r = self.pt.get(p)
-        if r is None:
-            r = self.body_info(p).points_to("param")
-            self.pt[p] = r
-        return r
-
-    # ---- callee effects at a call -------------------------------------------------
+    # ---- effects of one call, relative to the caller's BodyInfo ----------------------
     def extern_writes(self, B, call, name):
-        """[(arg index, kind, label)] for a callee without analysable body"""
+        """[(arg index|'f', levels, kind, label)] for a callee without analysable body"""
         out = []
         ln = last(name)
         iw = interior_write(name)
         if iw and call.args:
-            out.append((0, "o", "%s::%s" % (iw, ln)))
-        if ln in PROJECTION and not (is_keyed_container_fn(name) and ln in HASH_WRITE):
-            return out
+            out.append((0, (1,), "o", "%s::%s" % (iw, ln)))
         keyed = is_keyed_container_fn(name) and ln in HASH_WRITE
+        if ln in PROJECTION and not keyed:
+            return out
         for i, a in enumerate(call.args):
             if a[0] not in ("c", "m"):
                 continue
             ty = B.local_ty(a[1][0])
-            if a[1][1]:
-                # projected operand (rare): be conservative only for pointer-ish locals
-                pass
-            if MUT_RE.search(ty):
-                out.append((i, "h" if (keyed and i == 0) else "o", short(name)))
+            m = MUT_RE.findall(ty)
+            if not m:
+                continue
+            deep = len(m) >= 2 or bool(DEEP_RE.search(ty))
+            out.append((i, (1, 2) if deep else (1,), "h" if (keyed and i == 0) else "o", short(name)))
         return out
 
     def call_effects(self, B, call):
-        """→ (writes [(arg index | ('all',), kind, label)], io set, diag flag, labels of io)"""
+        """→ (writes [(arg index|'f', levels, kind, label)], io {(kind, label)}, diag)"""
         writes, io, diag = [], set(), None
         fn = call.fn
         if fn is None:
             for i, a in enumerate(call.args):
                 if a[0] in ("c", "m") and MUT_RE.search(B.local_ty(a[1][0])):
-                    writes.append((i, "o", "indirect-call"))
+                    writes.append((i, (1, 2), "o", "indirect-call"))
             f = call.t["f"]
-            if f[0] in ("c", "m") and MUT_RE.search(B.local_ty(f[1][0])):
-                writes.append(("f", "o", "indirect-call"))
+            if f[0] in ("c", "m"):
+                writes.append(("f", (1, 2), "o", "indirect-call"))
             return writes, io, diag
         targets = self.cg.targets(fn)
-        any_body = False
+        if not targets:
+            targets = [(call.name or call.decl or "", "call")]
         for (t, kind) in targets:
             if t in self.diag_base:
-                d = self.diag_base[t]
-                diag = "err" if (d == "err" or diag == "err") else "warn"
-                any_body = True
+                diag = dmax(diag, self.diag_base[t])
                 continue
             if t in self.cg.bodies:
-                any_body = True
-                for ((j, k), wk) in self.W.get(t, ()):
+                for ((j, k), lvl, wk) in self.W.get(t, ()):
                     ai = self.map_arg(call, t, j)
                     if ai is not None:
-                        writes.append((ai, wk, short(t)))
+                        writes.append((ai, (lvl,), wk, short(t)))
                 for x in self.IO.get(t, ()):
                     io.add((x, short(t)))
-                d = self.D.get(t)
-                if d:
-                    diag = "err" if (d == "err" and diag in (None, "err")) else (diag or d)
+                diag = dmax(diag, self.D.get(t))
             else:
-                nm = t
-                for w in self.extern_writes(B, call, nm):
-                    writes.append(w)
-                k = io_kind(nm)
+                for w in self.extern_writes(B, call, t):
+                    if w not in writes:
+                        writes.append(w)
+                k = io_kind(t)
                 if k:
-                    io.add((k, short(nm)))
-        if not targets or not any_body and not writes:
-            nm = call.name or call.decl or ""
-            for w in self.extern_writes(B, call, nm):
-                if w not in writes:
-                    writes.append(w)
+                    io.add((k, short(t)))
         return writes, io, diag
 
     @staticmethod
@@ -331,6 +446,37 @@ class Effects:
             return 1 if n > 1 else None
         return j - 1 if 0 <= j - 1 < n else None
 
+    def written_locations(self, bi, call, w):
+        """abstract locations (caller side) written by one (arg, levels, kind, label) entry"""
+        ai, levels = w[0], w[1]
+        op = call.t["f"] if ai == "f" else call.args[ai]
+        if op[0] not in ("c", "m"):
+            return set()
+        T = bi.value(op)
+        out = set()
+        for lvl in levels:
+            if lvl <= 1:
+                out |= T
+            else:
+                out |= bi.closure_of(bi.deref(T))
+        return out
+
+    def closure_written(self, bi, cpath, ops):
+        """locations written by constructing-and-calling closure cpath with capture operands ops → [(loc, kind)]"""
+        out = []
+        for ((j, k), lvl, wk) in self.W.get(cpath, ()):
+            if j != 1 or lvl == 0:
+                continue
+            sel = [ops[k]] if (k is not None and k < len(ops)) else ops
+            for o in sel:
+                if o[0] not in ("c", "m"):
+                    continue
+                T = bi.value(o)
+                locs = T if (lvl == 1 and k is not None) else (T | bi.closure_of(bi.deref(T)))
+                for loc in locs:
+                    out.append((loc, wk))
+        return out
+
     # ---- interprocedural fixpoint ----------------------------------------------------
     def _solve(self):
         cg = self.cg
@@ -339,14 +485,11 @@ class Effects:
             self.W[p] = set()
             self.IO[p] = set()
             self.D[p] = None
-        # worklist over callers
         work = list(paths)
         inwork = set(paths)
-        rounds = 0
         while work:
             p = work.pop()
             inwork.discard(p)
-            rounds += 1
             if p in self.diag_base:
                 self.D[p] = self.diag_base[p]
                 continue
@@ -361,60 +504,46 @@ class Effects:
     def _eval(self, p):
         bi = self.body_info(p)
         B = bi.B
-        PT, roots = self.param_pt(p)
         W = set(self.W[p])
         IO = set(self.IO[p])
         D = self.D[p]
+
+        def add(loc, wk, label):
+            if loc[0] == "P":
+                W.add((loc[1], loc[2], wk))
+                self.why.setdefault((p, loc[1], loc[2]), label)
         for (kind, blk, pl) in bi.events:
             if kind == "w":
                 place, rv = pl
-                for r in roots(place):
-                    W.add((r, "o"))
+                for loc in bi.locations(place):
+                    add(loc, "o", "store@bb%d" % blk)
             elif kind == "call":
                 call = pl
                 writes, io, diag = self.call_effects(B, call)
-                for (ai, wk, label) in writes:
-                    if ai == "f":
-                        f = call.t["f"]
-                        rs = roots(f[1])
-                    else:
-                        a = call.args[ai]
-                        if a[0] not in ("c", "m"):
-                            continue
-                        rs = roots(a[1])
-                    for r in rs:
-                        W.add((r, wk))
+                for w in writes:
+                    for loc in self.written_locations(bi, call, w):
+                        add(loc, w[2], "%s@%d" % (w[3], call.line))
                 if "*" in call.dest[1]:
-                    for r in roots(call.dest):
-                        W.add((r, "o"))
+                    for loc in bi.locations(call.dest):
+                        add(loc, "o", "calldest@%d" % call.line)
                 for (x, lbl) in io:
                     IO.add(x)
-                if diag:
-                    D = "err" if (D in (None, "err") and diag == "err") else "warn" if D != "err" or diag != "err" else D
+                D = dmax(D, diag)
             elif kind == "clos":
                 cpath, ops = pl
-                for ((j, k), wk) in self.W.get(cpath, ()):
-                    if j != 1:
-                        continue
-                    sel = [ops[k]] if (k is not None and k < len(ops)) else ops
-                    for o in sel:
-                        if o[0] in ("c", "m"):
-                            for r in roots(o[1]):
-                                W.add((r, wk))
+                for (loc, wk) in self.closure_written(bi, cpath, ops):
+                    add(loc, wk, "closure %s" % short(cpath))
                 IO |= self.IO.get(cpath, set())
-                if self.D.get(cpath):
-                    D = D or self.D[cpath]
+                D = dmax(D, self.D.get(cpath))
             elif kind == "fref":
                 for (t, k2) in self.cg.targets(pl):
                     IO |= self.IO.get(t, set())
-                    if self.D.get(t):
-                        D = D or self.D[t]
+                    D = dmax(D, self.D.get(t))
             elif kind == "asm":
                 IO.add("asm")
-        # a 'h' write subsumed by an 'o' write of the same root
-        for (r, wk) in list(W):
-            if wk == "h" and (r, "o") in W:
-                W.discard((r, "h"))
+        for (r, lvl, wk) in list(W):
+            if wk == "h" and (r, lvl, "o") in W:
+                W.discard((r, lvl, "h"))
         return W, IO, D
 
     # ---- must-report-an-error ---------------------------------------------------------
